@@ -121,8 +121,42 @@ def classify(rc, timed_out, text, parsed):
     return "pass", "", []
 
 
+def discover_unwindset(ws_dir, target_dir, harness, pkg, patterns, log_path, mem_gb):
+    """Per-loop unwinding bounds: link the harness (a run cut off at symex depth 1), list its loops with
+    goto-instrument --show-loops and give every loop whose enclosing function matches one of `patterns`
+    (regex, bound) that bound; all other loops keep the harness's #[kani::unwind] default."""
+    import glob
+    cmd = ["cargo", "kani"] + (["-p", pkg] if pkg else []) + ["--harness", harness, "--exact", "--target-dir", target_dir,
+           "-Z", "stubbing", "--no-assertion-reach-checks", "-Z", "unstable-options", "--cbmc-args", "--depth", "1"]
+    rc, to, wall = run_cmd(cmd, ws_dir, log_path, 1500, mem_gb)
+    mangled = harness.split("::")[-1]
+    cands = [f for f in glob.glob(os.path.join(target_dir, "kani", "*", "debug", "build", "*", "*", "out", "*" + mangled + ".out"))]
+    if not cands:
+        return None, "linked goto binary not found after the discovery run"
+    out = subprocess.run(["goto-instrument", "--show-loops", cands[0]], stdout=subprocess.PIPE, stderr=subprocess.DEVNULL, text=True).stdout
+    pairs = []
+    for m in re.finditer(r"^Loop (\S+):\n\s+file .*? function (.*)$", out, re.M):
+        lid, fn = m.group(1), m.group(2)
+        for pat, bound in patterns:
+            if re.search(pat, fn):
+                pairs.append(f"{lid}:{bound}")
+                break
+    return pairs, f"{len(pairs)} loops given explicit bounds"
+
+
 def kani_harness(ws_dir, target_dir, harness, log_path, timeout_s, mem_gb, unwind=None, stubbing=True,
-                 extra_args=(), pkg=None):
+                 extra_args=(), pkg=None, unwindset=None):
+    extra_args = list(extra_args)
+    if unwindset:
+        pairs, note = discover_unwindset(ws_dir, target_dir, harness, pkg, unwindset, log_path + ".discover", mem_gb)
+        if pairs is None:
+            return {"harness": harness, "verdict": "inconclusive", "reason": note, "failed": [], "wall_s": 0, "solver_s": None,
+                    "n_checks": None, "n_failed": None, "covers_sat": 0, "covers_total": 0, "stubs": [], "playback": None,
+                    "functions": [], "cover_descs": [], "log": log_path}
+        if pairs:
+            if "--cbmc-args" not in extra_args:
+                extra_args += ["-Z", "unstable-options", "--cbmc-args"]
+            extra_args += ["--unwindset", ",".join(pairs)]
     cmd = ["cargo", "kani"] + (["-p", pkg] if pkg else []) + ["--harness", harness, "--exact", "--target-dir", target_dir,
            "-Z", "concrete-playback", "--concrete-playback", "print"]
     if stubbing:
